@@ -6,6 +6,7 @@ import TmVerif.Codec.Rule
 import TmVerif.Codec.Event
 import TmVerif.Codec.Payload
 import TmVerif.Codec.Ldap
+import TmVerif.Codec.Dn
 open TmVerif TmVerif.Proto TmVerif.Codec
 
 def hexDigit (c : Char) : Option Nat :=
@@ -318,6 +319,31 @@ def stepLine (_ : Unit) (ws : List String) : Unit × String :=
         | .raw b => "raw " ++ encBytes b
         | .error => "error"
       | _, _, _ => "bad-op"
+    | "dnca" :: nroot :: toks =>
+      -- CellAllocation.dn: <#root parts> <root parts…> <cell> <alloc> <tenants…>
+      match nroot.toNat?, toks.mapM decStr with
+      | some k, some strs =>
+        match strs.drop k with
+        | cell :: alloc :: tenants =>
+          let dn := cellAllocDn (strs.take k) cell alloc tenants
+          let dec := match cellAllocOfDn dn with
+            | some (ts, a, c) => "some " ++ encStr (join ':' ts ++ '/' :: (a ++ '/' :: c))
+            | none => "none"
+          "dn " ++ encStr dn ++ " dec " ++ dec
+        | _ => "bad-op"
+      | _, _ => "bad-op"
+    | "dnpart" :: nroot :: toks =>
+      match nroot.toNat?, toks.mapM decStr with
+      | some k, some strs =>
+        match strs.drop k with
+        | [partition, cell] =>
+          let dn := partitionDn (strs.take k) partition cell
+          let dec := match partitionOfDn dn with
+            | some (c, pt) => "some " ++ encStr c ++ " " ++ encStr pt
+            | none => "none"
+          "dn " ++ encStr dn ++ " dec " ++ dec
+        | _ => "bad-op"
+      | _, _ => "bad-op"
     | "lenc" :: cls :: toks =>
       match jvalToks 1000 toks with
       | some (.obj o, []) => match ldapEnc cls o with
